@@ -15,6 +15,7 @@ import (
 
 type litNode struct {
 	leaf  bool
+	flag  bool // the leaf is a boolean constant
 	val   int64
 	elems []*litNode
 	pos   token.Pos
@@ -62,6 +63,14 @@ func pkgVarLit(p *packages.Package, name string, skip map[string]bool, fset *tok
 // elements are honoured.
 func readLit(info *types.Info, e ast.Expr) (*litNode, error) {
 	if tv, ok := info.Types[e]; ok && tv.Value != nil {
+		if tv.Value.Kind() == constant.Bool {
+			// a flag reads as 0 / 1
+			v := int64(0)
+			if constant.BoolVal(tv.Value) {
+				v = 1
+			}
+			return &litNode{leaf: true, val: v, pos: e.Pos(), flag: true}, nil
+		}
 		if tv.Value.Kind() != constant.Int {
 			return nil, fmt.Errorf("non-integer constant")
 		}
@@ -78,6 +87,7 @@ func readLit(info *types.Info, e ast.Expr) (*litNode, error) {
 	n := &litNode{pos: cl.Pos()}
 	var alen int64 = -1
 	var elemT types.Type
+	var structT *types.Struct
 	if tv, ok := info.Types[cl]; ok {
 		switch u := tv.Type.Underlying().(type) {
 		case *types.Array:
@@ -85,6 +95,13 @@ func readLit(info *types.Info, e ast.Expr) (*litNode, error) {
 			elemT = u.Elem()
 		case *types.Slice:
 			elemT = u.Elem()
+		case *types.Struct:
+			// a small record of integers (an edge as {a, b}) reads as the tuple of its fields
+			alen = int64(u.NumFields())
+			structT = u
+			if u.NumFields() > 0 {
+				elemT = u.Field(0).Type()
+			}
 		default:
 			return nil, fmt.Errorf("unsupported literal type %s", tv.Type)
 		}
@@ -98,12 +115,24 @@ func readLit(info *types.Info, e ast.Expr) (*litNode, error) {
 	}
 	for _, el := range cl.Elts {
 		if kv, ok := el.(*ast.KeyValueExpr); ok {
-			tv, ok := info.Types[kv.Key]
-			if !ok || tv.Value == nil {
-				return nil, fmt.Errorf("non-constant key")
+			if id, isId := kv.Key.(*ast.Ident); isId && structT != nil {
+				found := false
+				for i := 0; i < structT.NumFields(); i++ {
+					if structT.Field(i).Name() == id.Name {
+						idx, found = i, true
+					}
+				}
+				if !found {
+					return nil, fmt.Errorf("unknown field %s", id.Name)
+				}
+			} else {
+				tv, ok := info.Types[kv.Key]
+				if !ok || tv.Value == nil {
+					return nil, fmt.Errorf("non-constant key")
+				}
+				k, _ := constant.Int64Val(tv.Value)
+				idx = int(k)
 			}
-			k, _ := constant.Int64Val(tv.Value)
-			idx = int(k)
 			el = kv.Value
 		}
 		c, err := readLit(info, el)
@@ -121,8 +150,8 @@ func readLit(info *types.Info, e ast.Expr) (*litNode, error) {
 	// zero fill
 	for i, c := range n.elems {
 		if c == nil {
-			if _, isBasic := elemT.Underlying().(*types.Basic); isBasic {
-				n.elems[i] = &litNode{leaf: true, val: 0, pos: cl.Pos()}
+			if bt, isBasic := elemT.Underlying().(*types.Basic); isBasic {
+				n.elems[i] = &litNode{leaf: true, val: 0, pos: cl.Pos(), flag: bt.Kind() == types.Bool}
 			} else {
 				n.elems[i] = &litNode{pos: cl.Pos()}
 			}
@@ -181,7 +210,27 @@ func (c *Ctx) table1(pkg, name string) ([]int, token.Pos, error) {
 	}
 	row, ok := n.ints()
 	if !ok {
-		return nil, pos, fmt.Errorf("table %s: not one-dimensional", name)
+		// a table of flag tuples (one flag per edge) reads as the table of their bit masks, flag i
+		// being bit i
+		row, ok = nil, true
+		for _, e := range n.elems {
+			if e == nil || e.leaf {
+				ok = false
+				break
+			}
+			m := 0
+			for i, f := range e.elems {
+				if f == nil || !f.leaf || !(f.flag || f.val == 0) || f.val < 0 || f.val > 1 {
+					ok = false
+					break
+				}
+				m |= int(f.val) << uint(i)
+			}
+			row = append(row, m)
+		}
+		if !ok {
+			return nil, pos, fmt.Errorf("table %s: not one-dimensional", name)
+		}
 	}
 	return row, pos, nil
 }
